@@ -351,6 +351,7 @@ fn cmd_run(args: &[String]) -> i32 {
     let mut j = String::from("{");
     j.push_str(&format!("\"worker\":\"{worker}\",\"evaluations\":{},\"first_index\":{start},\"next_index\":{i},\"first_seed\":{},\"wall_s\":{:.3},", agg.evaluations, seed_for(&prop, verif_seed, start), t0.elapsed().as_secs_f64()));
     j.push_str(&format!("\"switches\":{},\"yields\":{},\"reads\":{},\"ops\":{},\"clock_advance_ns\":{},\"foreign\":{},\"rechecks\":{},\"recheck_mismatch\":{},", agg.switches, agg.yields, agg.reads, agg.ops, agg.clock_advance_ns, agg.foreign, agg.rechecks, agg.recheck_mismatch));
+    j.push_str(&format!("\"syscall_seam\":{},\"static_bytes_compared\":{},\"tls_bytes_compared\":{},", seam::present(), statics::total_bytes(), statics::tls_bytes()));
     j.push_str("\"faults\":{");
     j.push_str(&agg.faults.iter().map(|(k, v)| format!("{}:{v}", jstr(k))).collect::<Vec<_>>().join(","));
     j.push_str("},\"probes\":{");
